@@ -184,7 +184,37 @@ func init() {
 		x, _ := bitmap.Select32R64(ws, sidx, ridx, a[1].I32())
 		return selPrev(ws, x)
 	}
+	// "held" index slices [ws, decoy]: the index of ws is built, then the indexes of the decoy, and only then
+	// is the first index rendered - a returned index must not alias a buffer that a later build reuses
+	Exec["bitmap.IndexSelect32/held"] = func(a []V) string {
+		ws := a[0].U64s()
+		s := bitmap.IndexSelect32(ws)
+		decoy := a[1].U64s()
+		bitmap.IndexSelect32(decoy)
+		bitmap.IndexSelect32R64(decoy)
+		return I32s(s)
+	}
+	Exec["bitmap.IndexSelect32R64/held"] = func(a []V) string {
+		ws := a[0].U64s()
+		s, r := bitmap.IndexSelect32R64(ws)
+		decoy := a[1].U64s()
+		bitmap.IndexSelect32R64(decoy)
+		bitmap.IndexSelect32(decoy)
+		bitmap.IndexRank64(decoy, true)
+		return L(I32s(s), I32s(r))
+	}
 	Register("C02", genC02)
+}
+
+// c02Strided: a bitmap with exactly n 1-bits at positions start, start+stride, ...
+func c02Strided(n, start, stride int) []uint64 {
+	last := start + stride*(n-1)
+	ws := make([]uint64, last/64+1)
+	for j := 0; j < n; j++ {
+		p := start + stride*j
+		ws[p>>6] |= 1 << uint(p&63)
+	}
+	return ws
 }
 
 // c02FromKey: shape key of a "select(rank(p))" case = (bit p set or not, how far the answer is:
@@ -433,6 +463,43 @@ func genC02(g *Gen) {
 		key := c02Key(os, len(ws), i)
 		g.Do("bitmap.Select32/held", L(U64s(ws), Int(i), U64s(decoy)), key)
 		g.Do("bitmap.Select32R64/held", L(U64s(ws), Int(i), U64s(decoy)), key)
+	}
+
+	// (H0) exact-fit checkpoint counts, FIRST thing in the run, ascending: index A of a bitmap with exactly n
+	// 1-bits where ceil(n/32) is (around) 1,2,3,4,8,...,256, then the indexes of a decoy with the SAME number of
+	// checkpoints at different positions (all-ones from bit 0; A's 1-bits start at bit 3 or 7), then A is queried
+	// at 0, middle, n-1 and its index slices are read out.  An index that is returned uncopied when it fills a
+	// reused (pooled, doubling) scratch buffer exactly is overwritten by the decoy build.  Ascending order and a
+	// decoy that never needs more room than A keep such a buffer at the smallest capacity A itself forced.
+	for _, cp := range []int{1, 2, 3, 4, 5, 7, 8, 9, 15, 16, 17, 31, 32, 33, 63, 64, 65, 127, 128, 129, 255, 256, 257} {
+		counts := []int{32 * cp, 32*(cp-1) + 1}
+		if cp >= 127 {
+			counts = counts[:1]
+		}
+		for _, n := range counts {
+			for layout := 0; layout < 2; layout++ {
+				var ws []uint64
+				if layout == 0 {
+					ws = c02Strided(n, 3, 1) // dense
+				} else if cp < 64 {
+					ws = c02Strided(n, 7, 5) // sparse
+				} else {
+					ws = c02Strided(n, 7, 2)
+				}
+				decoy := c02Strided(32*cp, 0, 1)
+				os := c02Ones(ws)
+				w, d := U64s(ws), U64s(decoy)
+				key := fmt.Sprintf("exact/cp%d/l%d/full%v", cp, layout, n == 32*cp)
+				g.Stat("held-index-exact-fit")
+				g.Do("bitmap.IndexSelect32/held", L(w, d), key)
+				g.Do("bitmap.IndexSelect32R64/held", L(w, d), key)
+				for _, i := range []int{0, n / 2, n - 1} {
+					k := key + "/" + c02Key(os, len(ws), i)
+					g.Do("bitmap.Select32/held", L(w, Int(i), d), k)
+					g.Do("bitmap.Select32R64/held", L(w, Int(i), d), k)
+				}
+			}
+		}
 	}
 
 	// (H) held indexes over ASCENDING bitmap lengths 1..70, first thing in the run: an index that
